@@ -2,6 +2,7 @@
 Common functions for the Weng-Lin models.
 """
 
+import math
 import sys
 from itertools import zip_longest
 from statistics import NormalDist
@@ -60,7 +61,7 @@ def phi_major(x: float) -> float:
     :param x: A number.
     :return: A number.
     """
-    return _normal.cdf(x)
+    return 0.5 * math.erfc(-x / math.sqrt(2.0))
 
 
 def phi_major_inverse(x: float) -> float:
